@@ -31,4 +31,211 @@ class Unrecognised(Exception):
     pass
 
 
-GENERATORS = []
+import re
+
+
+def _read(repo, rel):
+    with open(os.path.join(repo, rel), encoding="utf-8") as f:
+        return f.read()
+
+
+def _strip_comments(src):
+    src = re.sub(r"/\*.*?\*/", "", src, flags=re.S)
+    return re.sub(r"//[^\n]*", "", src)
+
+
+KIND = {  # Rust token variant -> Coq constructor of Model/Token.v (fail-closed on anything else)
+    "Asterisk": "KAsterisk", "Boolean": "KBoolean", "Colon": "KColon", "DoubleEquals": "KDoubleEquals",
+    "Else": "KElse", "Equals": "KEquals", "False": "KFalse", "GreaterThan": "KGreaterThan",
+    "GreaterThanOrEqualTo": "KGreaterThanOrEqualTo", "Identifier(_)": "KIdentifier", "If": "KIf",
+    "Integer": "KInteger", "IntegerLiteral(_)": "KIntegerLiteral", "LeftCurly": "KLeftCurly",
+    "LeftParen": "KLeftParen", "LessThan": "KLessThan", "LessThanOrEqualTo": "KLessThanOrEqualTo",
+    "Minus": "KMinus", "Plus": "KPlus", "RightCurly": "KRightCurly", "RightParen": "KRightParen",
+    "Slash": "KSlash", "Terminator(TerminatorType::LineBreak)": "KLineBreak",
+    "Terminator(TerminatorType::Semicolon)": "KSemicolon", "Then": "KThen", "ThickArrow": "KThickArrow",
+    "ThinArrow": "KThinArrow", "True": "KTrue", "Type": "KType",
+}
+
+
+def _kind(v):
+    v = v.strip()
+    if v not in KIND:
+        raise Unrecognised("token variant %r" % v)
+    return KIND[v]
+
+
+def _arms(src):
+    """Split the body of `match c {` in tokenize into (pattern, body) arms by brace matching."""
+    m = re.search(r"match c \{", src)
+    if not m:
+        raise Unrecognised("match c {")
+    i = m.end()
+    arms = []
+    while True:
+        while src[i] in " \n\t":
+            i += 1
+        if src[i] == "}":
+            break
+        j = src.index("=>", i)
+        pat = src[i:j].strip()
+        k = j + 2
+        while src[k] in " \n\t":
+            k += 1
+        if src[k] == "{":
+            depth, e = 0, k
+            while True:
+                if src[e] == "{":
+                    depth += 1
+                elif src[e] == "}":
+                    depth -= 1
+                    if depth == 0:
+                        break
+                e += 1
+            body = src[k:e + 1]
+            i = e + 1
+        elif src.startswith("match", k):
+            b = src.index("{", k)
+            depth, e = 0, b
+            while True:
+                if src[e] == "{":
+                    depth += 1
+                elif src[e] == "}":
+                    depth -= 1
+                    if depth == 0:
+                        break
+                e += 1
+            body = src[k:e + 1]
+            i = e + 1
+        else:
+            raise Unrecognised("arm body after %r" % pat)
+        while src[i] in " \n\t,":
+            i += 1
+        arms.append((pat, body))
+    return arms
+
+
+def _table(body, what):
+    """`Variant::A | Variant::B => false, Variant::C | ... => true` -> {kind: bool}"""
+    res = {}
+    for alts, val in re.findall(r"((?:Variant::[A-Za-z]+(?:\([A-Za-z_:]*\))?\s*\|?\s*)+)=>\s*(true|false)\b", body):
+        for v in re.findall(r"Variant::([A-Za-z]+(?:\([A-Za-z_:]*\))?)", alts):
+            k = _kind(v)
+            if k in res:
+                raise Unrecognised("%s: %s listed twice" % (what, k))
+            res[k] = (val == "true")
+    return res
+
+
+def gen_token_tables(repo):
+    tok = _strip_comments(_read(repo, "src/tokenizer.rs"))
+    tkn = _strip_comments(_read(repo, "src/token.rs"))
+    test = tok.find("#[cfg(test)]")
+    if test > 0:
+        tok = tok[:test]
+    kws = dict(re.findall(r'pub const ([A-Z_]+_KEYWORD): &str = "([a-z]+)";', tkn))
+    if len(kws) != 8:
+        raise Unrecognised("keyword constants (%d)" % len(kws))
+    arms = _arms(tok)
+    symbols, pairs, seen_special = [], [], []
+    word_body = None
+    linebreak_body = None
+    order = []
+    for pat, body in arms:
+        m = re.fullmatch(r"'(\\?.)'", pat)
+        if m and m.group(1) == "\\n":
+            linebreak_body = body
+            order.append("nl")
+            continue
+        if m and m.group(1) == "#":
+            if not re.search(r"while let Some\(&\(_, d\)\) = iter\.peek\(\) \{\s*if d == '\\n' \{\s*break;\s*\}\s*iter\.next\(\);\s*\}", body):
+                raise Unrecognised("comment loop")
+            order.append("hash")
+            continue
+        if m:
+            ch = m.group(1)
+            peeks = re.findall(r"Some\(&\(_, '(.)'\)\)", body)
+            variants = re.findall(r"variant: Variant::([A-Za-z]+(?:\(TerminatorType::[A-Za-z]+\))?)", body)
+            ends = re.findall(r"end: i \+ (\d)", body)
+            if not peeks:
+                if len(variants) != 1 or ends != ["1"] or "iter." in body:
+                    raise Unrecognised("symbol arm %r" % ch)
+                symbols.append((ord(ch), _kind(variants[0])))
+                order.append("sym")
+            else:
+                if len(variants) != len(peeks) + 1 or ends != ["2"] * len(peeks) + ["1"] or body.count("iter.next()") != len(peeks):
+                    raise Unrecognised("look-ahead arm %r" % ch)
+                pairs.append((ord(ch), [(ord(p), _kind(v)) for p, v in zip(peeks, variants)], _kind(variants[-1])))
+                order.append("pair")
+            continue
+        if pat == "_ if c.is_alphabetic() || c == '_'":
+            word_body = body
+            order.append("word")
+            continue
+        if pat == "'0'..='9'":
+            if not re.search(r"if d\.is_ascii_digit\(\) \{\s*iter\.next\(\);\s*\} else \{\s*end = \*j;\s*break;", body) or \
+                    "BigInt::parse_bytes(&source_contents.as_bytes()[i..end], 10).unwrap()" not in body:
+                raise Unrecognised("digit arm")
+            order.append("digit")
+            continue
+        if pat == "_ if c.is_whitespace()":
+            if body.strip() != "{}":
+                raise Unrecognised("whitespace arm")
+            order.append("ws")
+            continue
+        if pat == "_":
+            if "GraphemeCursor::new(i, source_contents.len(), true)" not in body or \
+                    "cursor.next_boundary(source_contents, 0).unwrap().unwrap()" not in body or \
+                    "SourceRange { start: i, end }" not in body:
+                raise Unrecognised("error arm")
+            order.append("err")
+            continue
+        raise Unrecognised("arm pattern %r" % pat)
+    if [o for o in order if o not in ("sym", "pair")] != ["nl", "word", "digit", "ws", "hash", "err"]:
+        raise Unrecognised("arm order %r" % order)
+    if word_body is None or linebreak_body is None:
+        raise Unrecognised("word / line break arm")
+    if not re.search(r"if d\.is_alphanumeric\(\) \|\| \*d == '_' \{\s*iter\.next\(\);\s*\} else \{\s*end = \*j;\s*break;", word_body):
+        raise Unrecognised("word loop")
+    chain = re.findall(r"&source_contents\[i\.\.end\] == ([A-Z_]+)\s*\{\s*tokens\.push\(Token \{\s*source_range: SourceRange \{ start: i, end \},\s*variant: Variant::([A-Za-z]+),", word_body)
+    if len(chain) != 8 or "variant: Variant::Identifier(&source_contents[i..end])" not in word_body:
+        raise Unrecognised("keyword chain (%d)" % len(chain))
+    keywords = [(kws[c], _kind(v)) for c, v in chain]
+    if "!tokens.is_empty()" not in linebreak_body or "tokens.last().unwrap().variant" not in linebreak_body:
+        raise Unrecognised("line break guard")
+    ends = _table(linebreak_body, "first-pass table")
+    # second pass
+    m = re.search(r"let mut filtered_tokens = vec!\[\];(.*)Ok\(filtered_tokens\)", tok, flags=re.S)
+    if not m:
+        raise Unrecognised("second pass")
+    second = m.group(1)
+    if "if let Variant::Terminator(TerminatorType::LineBreak) = token.variant" not in second or \
+            "if let Some(next_token) = tokens_iter.peek()" not in second or \
+            not re.search(r"Variant::Terminator\(TerminatorType::LineBreak\) => \{\s*panic!", second):
+        raise Unrecognised("second pass shape")
+    starts = _table(second, "second-pass table")
+    allk = sorted(set(KIND.values()))
+    if sorted(ends) != allk:
+        raise Unrecognised("first-pass table does not list every token kind")
+    if sorted(list(starts) + ["KLineBreak"]) != allk:
+        raise Unrecognised("second-pass table does not list every token kind")
+
+    def lst(xs):
+        return "[" + "; ".join(xs) + "]"
+    out = ["(* GENERATED by tools/extract_tables.py from /repo/src/tokenizer.rs and /repo/src/token.rs. Do not edit. *)",
+           "From Coq Require Import List NArith Bool.", "Import ListNotations.", "Require Import Gram.Model.Token.", "",
+           "Definition symbol_table : list (N * tkind) :=",
+           "  " + lst("(%d%%N, %s)" % p for p in symbols) + ".", "",
+           "Definition pair_table : list (N * (list (N * tkind) * tkind)) :=",
+           "  " + lst("(%d%%N, (%s, %s))" % (c, lst("(%d%%N, %s)" % q for q in ps), alone) for c, ps, alone in pairs) + ".", "",
+           "Definition keyword_table : list (list N * tkind) :=",
+           "  " + lst("(%s, %s)" % (lst("%d%%N" % ord(ch) for ch in w), k) for w, k in keywords) + ".", "",
+           "(* first pass: a line break after a token of this kind becomes a terminator *)",
+           "Definition ends_table : list (tkind * bool) :=",
+           "  " + lst("(%s, %s)" % (k, "true" if ends[k] else "false") for k in allk) + ".", "",
+           "(* second pass: a line-break terminator before a token of this kind is kept *)",
+           "Definition starts_table : list (tkind * bool) :=",
+           "  " + lst("(%s, %s)" % (k, "true" if starts[k] else "false") for k in allk if k != "KLineBreak") + ".", ""]
+    return "\n".join(out)
+
+
+GENERATORS = [("TokenTables.v", gen_token_tables)]
